@@ -305,6 +305,24 @@ spec:
 ---
 apiVersion: networking.istio.io/v1
 kind: Sidecar
+metadata: {name: sc-egress, namespace: default}
+spec:
+  workloadSelector: {labels: {egress: proxy}}
+  outboundTrafficPolicy: {mode: ALLOW_ANY, egressProxy: {host: a.example.com, port: {number: 80}}}
+  egress:
+  - hosts: ["*/*"]
+---
+apiVersion: networking.istio.io/v1
+kind: Sidecar
+metadata: {name: sc-any, namespace: default}
+spec:
+  workloadSelector: {labels: {any: plain}}
+  outboundTrafficPolicy: {mode: ALLOW_ANY}
+  egress:
+  - hosts: ["*/*"]
+---
+apiVersion: networking.istio.io/v1
+kind: Sidecar
 metadata: {name: sc-reg, namespace: default}
 spec:
   workloadSelector: {labels: {reg: only}}
@@ -392,10 +410,18 @@ spec:
 
 // optional configs a world variant may drop (bit i of the variant number)
 var keysOptional = []string{"name: dr-a,", "name: dr-a-nsb,", "name: dr-b,", "name: sc-b,", "name: ef-version,", "name: nsb,", "name: vs-a,", "name: dr-dns,",
-	"", // bit 8: mesh-wide default private key provider (see newKeysWorld)
-	"name: vs-c-src,", "name: vs-hb-srcns,", "name: dr-sel,", "name: sc-reg,"}
+	"",                                      // bit 8: mesh-wide default private key provider (see newKeysWorld)
+	"name: vs-c-src,", "name: vs-hb-srcns,", // bits 9, 10: OPT-IN (present only when the bit is set, see keysOptIn)
+	"name: dr-sel,", "name: sc-reg,",
+	"", // bit 13: mesh-wide outboundTrafficPolicy ALLOW_ANY_DYNAMIC_DNS instead of ALLOW_ANY
+	"name: sc-egress,", "name: sc-any,"}
 
-const keysWorldBits = 13
+// The VirtualServices with source matches make route "80" (which carries every HTTP virtual service) uncacheable for
+// every proxy they are visible to; they are present only in the worlds that ask for them, so that route 80 is served
+// from the cache for namespace-default proxies in most worlds.
+var keysOptIn = map[int]bool{9: true, 10: true}
+
+const keysWorldBits = 16
 
 func keysConfig(variant int) string {
 	docs := strings.Split(keysMesh, "\n---\n")
@@ -403,7 +429,7 @@ func keysConfig(variant int) string {
 	for _, d := range docs {
 		drop := false
 		for i, marker := range keysOptional {
-			if marker != "" && variant&(1<<i) != 0 && strings.Contains(d, marker) {
+			if marker != "" && strings.Contains(d, marker) && (variant&(1<<i) != 0) != keysOptIn[i] {
 				drop = true
 			}
 		}
@@ -455,6 +481,8 @@ func newSDSGen(f *failer, m *meshconfig.MeshConfig, ds *pxds.DiscoveryServer) (m
 			mkSecret("default", "tls-a", map[string]string{"tls.crt": "cert-default", "tls.key": "key-default", "ca.crt": "ca-default"}),
 			mkSecret("ns-b", "tls-a", map[string]string{"tls.crt": "cert-nsb", "tls.key": "key-nsb", "ca.crt": "ca-nsb"}),
 			mkSecret("default", "tls-a-cacert", map[string]string{"cacert": "cacert-default"}),
+			// a compound secret: `tls-b-cacert` is served from the ca.crt of `tls-b` (no secret of that name exists)
+			mkSecret("default", "tls-b", map[string]string{"tls.crt": "cert-b", "tls.key": "key-b", "ca.crt": "ca-b"}),
 		},
 		"cluster2": {
 			mkSecret("default", "tls-a", map[string]string{"tls.crt": "cert-cluster2", "tls.key": "key-cluster2", "ca.crt": "ca-cluster2"}),
@@ -477,6 +505,9 @@ func newKeysWorld(variant int) *keysWorld {
 	f := &failer{}
 	m := mesh.DefaultMeshConfig()
 	m.OutboundTrafficPolicy = &meshconfig.MeshConfig_OutboundTrafficPolicy{Mode: meshconfig.MeshConfig_OutboundTrafficPolicy_ALLOW_ANY}
+	if variant&(1<<13) != 0 {
+		m.OutboundTrafficPolicy.Mode = meshconfig.MeshConfig_OutboundTrafficPolicy_ALLOW_ANY_DYNAMIC_DNS
+	}
 	m.ServiceSettings = []*meshconfig.MeshConfig_ServiceSettings{{
 		Settings: &meshconfig.MeshConfig_ServiceSettings_Settings{ClusterLocal: true},
 		Hosts:    []string{"cl.default.svc.cluster.local"},
@@ -551,11 +582,12 @@ func basePattrs(variant int) pattrs {
 var keyAttrs = []string{"namespace", "labels-tier", "labels-patched", "labels-scoped", "labels-app", "network", "cluster", "locality-region", "locality-zone",
 	"node", "type", "version", "flag-hbone-off", "flag-http10", "flag-dnscapture", "flag-dnsauto", "flag-certs", "dnsdomain",
 	"flag-proxyconfig", "flag-pkp-qat", "flag-pkp-cryptomb",
-	"labels-reg", "flag-grpc", "flag-ipv6", "flag-preserve-case", "flag-dnsauto-only"}
+	"labels-reg", "flag-grpc", "flag-ipv6", "flag-preserve-case", "flag-dnsauto-only",
+	"labels-egress", "labels-any"}
 
 // attribute groups that only matter in combination (e.g. DNS auto-allocation is used iff capture AND auto-allocate):
 // every world serves each group in sequence from one cache
-var keyCombos = []string{"flag-dnsauto,flag-dnsauto-only,flag-dnscapture,flag-ipv6", "flag-hbone-off,flag-grpc,labels-tier,labels-app",
+var keyCombos = []string{"labels-reg,labels-egress,labels-any", "flag-dnsauto,flag-dnsauto-only,flag-dnscapture,flag-ipv6", "flag-hbone-off,flag-grpc,labels-tier,labels-app",
 	"flag-proxyconfig,flag-pkp-qat,flag-pkp-cryptomb,flag-preserve-case"}
 
 func (p pattrs) with(attr string) pattrs {
@@ -592,6 +624,10 @@ func (p pattrs) with(attr string) pattrs {
 		flipLabel("app", "client", "other")
 	case "labels-reg":
 		flipLabel("reg", "only", "no")
+	case "labels-egress":
+		flipLabel("egress", "proxy", "no")
+	case "labels-any":
+		flipLabel("any", "plain", "no")
 	case "network":
 		if p.network == "net1" {
 			q.network = "net2"
@@ -757,7 +793,7 @@ func (w *keysWorld) generateWith(gs genSet, p *model.Proxy) map[string]proto.Mes
 	}
 	sds, _, err := gs.sds.Generate(p,
 		&model.WatchedResource{TypeUrl: v3.SecretType, ResourceNames: sets.New("kubernetes://tls-a", "kubernetes://tls-a-cacert",
-			"kubernetes://ns-b/tls-a", "kubernetes://default/tls-a", "kubernetes://missing")}, req)
+			"kubernetes://ns-b/tls-a", "kubernetes://default/tls-a", "kubernetes://missing", "kubernetes://tls-b", "kubernetes://tls-b-cacert")}, req)
 	if err != nil {
 		panic(err)
 	}
@@ -812,6 +848,10 @@ func diffTypes(a, b map[string]proto.Message) []string {
 
 var keysEntries, keysShared int
 
+// per namespace of the second proxy: RDS cache entries it creates from scratch, and how many of them were served
+// from the first proxy's entries
+var keysRDS = map[string][2]int{}
+
 type keysStats struct {
 	pairs, sensitive, hits int
 	byAttr                 map[string][2]int
@@ -828,18 +868,20 @@ func (w *keysWorld) runPair(first, second pattrs) (res string, sens []string) {
 		}
 		return n
 	}
+	nrds := func() int { return len(cache.Keys(model.RDSType)) }
 	cache.ClearAll()
 	pf := w.proxy(first, "first")
 	ps := w.proxy(second, "second")
 	coldFirst := w.generate(pf) // warms the cache with entries built for `first`
-	k1 := nkeys()
+	k1, r1 := nkeys(), nrds()
 	warm := w.generate(ps)
-	k2 := nkeys()
+	k2, r2 := nkeys(), nrds()
 	cache.ClearAll()
 	cold := w.generate(ps)
-	k3 := nkeys()
+	k3, r3 := nkeys(), nrds()
 	keysEntries += k3
 	keysShared += k3 - (k2 - k1) // entries of `second` that were served from what `first` had stored
+	keysRDS[second.ns] = [2]int{keysRDS[second.ns][0] + r3, keysRDS[second.ns][1] + r3 - (r2 - r1)}
 	sens = diffTypes(coldFirst, cold)
 	if os.Getenv("C06_DEBUG") != "" {
 		fmt.Fprintln(os.Stderr, "first-vs-second differs at:", diffOutputs(coldFirst, cold), "entries", k1, k2, k3)
@@ -896,9 +938,18 @@ func genKeys(seed uint64, n int, path string) {
 			if r.Chance(2, 3) {
 				world &= r.Intn(1 << keysWorldBits) // mostly few configs dropped
 			}
-			world &^= 256
+			world &^= 256 | 1<<9 | 1<<10 | 1<<13
 			if r.Chance(1, 2) {
 				world |= 256 // mesh-wide default private key provider
+			}
+			if r.Chance(1, 3) {
+				world |= 1 << 9 // VirtualService with a sourceLabels-only match
+			}
+			if r.Chance(1, 4) {
+				world |= 1 << 10 // VirtualService with sourceNamespace-only / sourceLabels matches
+			}
+			if r.Chance(1, 5) {
+				world |= 1 << 13 // mesh-wide ALLOW_ANY_DYNAMIC_DNS
 			}
 		}
 		base := c % 4
@@ -993,6 +1044,10 @@ func execKeys(opsPath, outPath string) {
 	sort.Strings(names)
 	for _, k := range names {
 		st.Line(k, strconv.Itoa(stats[k][0]), strconv.Itoa(stats[k][1]))
+	}
+	for ns, v := range keysRDS {
+		st.Line("rds-entries-of-second/"+ns, strconv.Itoa(v[0]), "0")
+		st.Line("rds-served-from-entries-of-first/"+ns, strconv.Itoa(v[1]), "0")
 	}
 	st.Line("cache-entries-of-second", strconv.Itoa(keysEntries), "0")
 	st.Line("served-from-entries-of-first", strconv.Itoa(keysShared), "0")
